@@ -6,6 +6,7 @@ import (
 	"fmt"
 	"strings"
 	"sync"
+	"sync/atomic"
 	"testing"
 	"testing/synctest"
 	"time"
@@ -21,8 +22,9 @@ import (
 // The real RetrieveLoop runs in a synctest bubble against the DA double; the harness sends the retrieve signal and
 // drains the event channels itself (no SyncLoop), so every emitted event is observed.
 // Part 1: every DA layout (per height: empty / genuine / junk / genuine+junk / 101 blobs) × every sequence of fetch
-// outcomes (ok / listing error / not found / from the future / error while fetching blobs) within the budget × start
-// heights. Part 2: arbitrary blob bytes: every prefix and every single-byte substitution of genuine blobs, and a
+// outcomes (ok / listing error / not found / from the future / error while fetching blobs / NO ANSWER to the listing
+// call / NO ANSWER to a blob-chunk fetch — the call is parked until the retriever's own deadline ends it) within the
+// budget × start heights. Part 2: arbitrary blob bytes: every prefix and every single-byte substitution of genuine blobs, and a
 // fixed list of malformed shapes, next to a genuine blob. Part 3: back-pressure. Part 4 (structured_test.go): blobs that
 // ARE valid protobuf but lack parts — every set of <= k fields / sub-messages / list elements of a genuine header blob
 // and a genuine data blob removed, every minimal message of <= k leaves, each with a stale, a foreign and a proposer
@@ -51,6 +53,10 @@ var fixedJunk = [][]byte{
 	bytes.Repeat([]byte{0x0a, 0x00}, 40),             // many empty sub-messages
 	[]byte("plain text that is not protobuf at all"), //
 }
+
+// noAnswerWaitCap: virtual seconds the harness keeps the clock running for one lost fetch request before it goes on
+// (the retriever's own per-attempt deadline is 30 s; the cap only bounds a scan that never comes back).
+const noAnswerWaitCap = 120
 
 type emitted struct {
 	header bool
@@ -81,6 +87,8 @@ type outcome struct {
 	sig    string
 	panics string
 	engine string // machinery problem (never a verdict)
+	// measured: fetch requests of this run that were left without an answer
+	noAnswers int
 }
 
 func body(t *testing.T, c *explore.Ctx, pc *world.ProducerChain, nHeights int) (out outcome) {
@@ -187,16 +195,25 @@ func bubble(c *explore.Ctx, pc *world.ProducerChain, nHeights int, fx *fixed) (o
 	}
 	var calls []call
 	var answers []string
+	// hung: the last listing call (or the blob-chunk fetch that followed it) got NO ANSWER and, as far as the harness
+	// knows, is still parked on its context; any later listing call proves that it has returned. noAnswers counts them.
+	hung, noAnswers := false, 0
+	defer func() { out.noAnswers = noAnswers }()
 	env.DA.GetPolicy = func(h uint64) world.GetAnswer {
 		a := world.GetOK
 		if !settled && c != nil && h <= tip {
-			a = world.GetAnswer(c.Choose("fetch", 6))
+			a = world.GetAnswer(c.Choose("fetch", int(world.NumGetAnswersWithLoss)))
+		}
+		hung = false
+		if (a == world.GetNoAnswer) || (a == world.GetNoAnswerOnGet && len(env.DA.BlobsAt(h)) > 0) {
+			hung = true
+			noAnswers++
 		}
 		if a != world.GetOK {
 			answers = append(answers, fmt.Sprintf("%d:%d", h, a))
 		}
 		rec := a
-		if (a == world.GetErrorOnGet || a == world.GetNotFoundOnGet) && len(env.DA.BlobsAt(h)) == 0 {
+		if (a == world.GetErrorOnGet || a == world.GetNotFoundOnGet || a == world.GetNoAnswerOnGet) && len(env.DA.BlobsAt(h)) == 0 {
 			rec = world.GetNotFound // nothing to fetch: the listing is an (empty) success
 		}
 		calls = append(calls, call{h, rec})
@@ -240,6 +257,17 @@ func bubble(c *explore.Ctx, pc *world.ProducerChain, nHeights int, fx *fixed) (o
 		}
 		time.Sleep(3 * time.Second)
 		synctest.Wait()
+		// a request without an answer ends only with the retriever's own deadline: keep the virtual clock running (and
+		// the retrieve signal pending) until the scan has issued its next listing call, so that the calls after the
+		// lost request are still decision points; the wait is capped (a scan parked for good shows up as not-stalled)
+		for waited := 0; hung && waited < noAnswerWaitCap; waited++ {
+			select {
+			case n.M.VerifRetrieveCh() <- struct{}{}:
+			default:
+			}
+			time.Sleep(time.Second)
+			synctest.Wait()
+		}
 		all = append(all, drain(n.M)...)
 	}
 	rounds := nHeights + 2
@@ -269,6 +297,9 @@ func bubble(c *explore.Ctx, pc *world.ProducerChain, nHeights int, fx *fixed) (o
 	tags := []string{}
 	if len(answers) > 0 {
 		tags = append(tags, "fetch-faults")
+	}
+	if noAnswers > 0 {
+		tags = append(tags, "fetch-no-answer")
 	}
 	// (a) the listing calls: non-decreasing, start at the configured start, pass H only after an ok / empty answer
 	log := env.DA.GetIDsLog
@@ -379,7 +410,7 @@ func TestCheck(t *testing.T) {
 	subs := vf.Pick(r, []byte{0x00, 0xff, 0x0a, 0x80}, nil) // nil = all 255 other values
 	r.Assume = []string{
 		"virtual time; the harness sends the retrieve signal and drains the sync input channels itself",
-		"fetch outcomes per listing call: ok / listing error / not found / from the future / error while fetching the blobs / 'blob: not found' while fetching the blobs (first chunk)",
+		"fetch outcomes per listing call: ok / listing error / not found / from the future / error while fetching the blobs / 'blob: not found' while fetching the blobs (first chunk) / NO ANSWER to the listing call / NO ANSWER to the blob-chunk fetch that holds the height's last id (for a 101-blob height: the second chunk, after the first one succeeded); a call without an answer returns only when its context ends, with the context's error — the harness keeps virtual time running (at most 120 s per lost request) until the scan issues its next listing call, so the calls after a lost request are decision points too; the retriever's deadline itself (30 s) is not assumed, only that one exists below 120 s",
 		"the 10 in-call retries and the early return on 'from the future' are accepted behaviours; a height counts as passed only after an ok or confirmed-empty answer",
 		"the node runs RetrieveLoop as a bare goroutine, so a panic below it kills the process; the harness recovers the panic only to report it (clause scan-crashes)",
 		"structured junk is derived from the protobuf form of the genuine blobs of the producer chain (populated fields only); junk re-signed with the proposer's own key may legitimately be handed to sync, so for it only crash / stall / delivery of the genuine blobs are judged",
@@ -442,8 +473,12 @@ func TestCheck(t *testing.T) {
 		r.Finish(vf.Coverage{Evaluations: 1, DistinctNontrivial: 1})
 		return
 	}
+	var p1NoAnswer atomic.Int64
 	st := explore.Explore(explore.Config{Budgets: budgets, Deadline: vf.Pick(r, 80*time.Second, 20*time.Minute)}, func(c *explore.Ctx) {
 		o := body(t, c, pc, nHeights)
+		if o.noAnswers > 0 {
+			p1NoAnswer.Add(1)
+		}
 		if o.fail != nil {
 			r.Report(vf.Violation{Clause: o.fail.Clause, Tags: o.tags, Msg: fmt.Sprintf("%s\n %v", o.fail.Msg, o.trace), Cost: c.Cost(), History: map[string]any{"Choices": c.Choices()}})
 			r.Outcome("fail:" + o.fail.Clause)
@@ -531,7 +566,7 @@ func TestCheck(t *testing.T) {
 	// part 6: clean restart with persisted caches in the middle of the scan
 	p6 := runRestart(t, r, pc, vf.Pick(r, 3, 4), vf.Pick(r, 150*time.Second, 18*time.Minute))
 	caps = append(caps, p6.caps...)
-	bounds := map[string]any{"da_heights": nHeights, "budgets": budgets, "junk_blobs": len(junk), "substitution_values_per_position": map[bool]any{true: 255, false: len(subs) + 1}[subs == nil],
+	bounds := map[string]any{"da_heights": nHeights, "budgets": budgets, "fetch_outcomes_per_listing_call": int(world.NumGetAnswersWithLoss), "fetch_no_answer_wait_cap_virtual_seconds": noAnswerWaitCap, "part1_executions": st.Executions, "part1_executions_with_a_request_left_unanswered": p1NoAnswer.Load(), "junk_blobs": len(junk), "substitution_values_per_position": map[bool]any{true: 255, false: len(subs) + 1}[subs == nil],
 		"structured_k_delete": kDel, "structured_k_keep": kKeep, "structured_source_blocks": p4blocks, "structured_nodes": p4.nodes, "structured_blobs": p4.blobs, "structured_blobs_by_mode": p4.byMode, "structured_scans": p4.runs,
 		"crowded_measured_batch_size": p5.batch, "crowded_batches": p5.batches, "crowded_max_index_of_a_genuine_item": p5.maxIndex, "crowded_max_blobs_at_a_height": p5.maxTotal, "crowded_scans": p5.runs, "crowded_max_fetch_calls_per_listing": p5.maxGets}
 	for k, v := range p6.bounds {
@@ -539,7 +574,7 @@ func TestCheck(t *testing.T) {
 	}
 	r.Finish(vf.Coverage{
 		Evaluations: st.Executions + p2runs + p4.runs + p5.runs + p6.runs, DistinctNontrivial: int64(r.DistinctOutcomes()), States: st.Executions + p6.runs, Transitions: st.Points + p6.points,
-		Rule:       "part 1: every DA layout (5 content kinds per height) × start height {0,1,3} × every sequence of fetch outcomes (6 per listing call) within the budget, real RetrieveLoop under virtual time; part 3: a genuine blob scanned while the sync loop's input channel is full (back-pressure) must arrive once the channel is drained; part 2: every prefix and single-byte substitution of a genuine header blob and a genuine data blob plus malformed shapes, scanned in batches of 250 next to genuine blobs; part 4: the protobuf forms of a genuine header blob and a genuine data blob with every set of <= k_delete populated fields / sub-messages / repeated-field elements removed (a sub-message removed or left present-but-empty) and every minimal message keeping <= k_keep leaves, each as it is (stale signature), re-signed by a foreign key and re-signed by the proposer's key, scanned in batches of 250 next to genuine blobs, failing batches split down to every single failing blob; a panic of the scan goroutine is the violation scan-crashes; part 5: crowded DA heights: the retrieval batch size b is measured (blob-fetch calls per listing call), then one DA height holds i filler blobs, a genuine header, a genuine data blob and j filler blobs for every i in 0..batches*b+2 and every j that ends the height on a total in {k*b-1..k*b+2} or right after the genuine pair: every genuine item sits on every index of the height incl. b-1, b, b+1, 2b, 2b+1 and must reach sync; part 6: clean restart with persisted caches in the middle of the scan: for the configurations (start height in {0,1,3}) x (blocks dealt to the DA heights in ascending / descending order) named in bounds.restart_configurations, every layout of the DA heights over {empty, the next block's genuine blobs, the next two blocks' genuine blobs, junk + the next block's genuine blobs + junk}, EVERY schedule of the first life over {scan the next DA height, the sync loop takes the next header event, the sync loop takes the next data event} (real RetrieveLoop and real SyncLoop of one Manager) and a clean stop (loops cancelled, SaveCache) at EVERY point of every such schedule at which k >= 1 emitted events have not been taken by the sync loop; then NewManager on the same store and the same cache directory (LoadCache), the whole DA layer available, the scan runs again: it must not resume beyond a height holding a genuine item that sync never got, must reach tip+1, must hand over only genuine items, and every genuine item at an examined height that the sync loop has not taken in the first life and whose block is not applied must be handed to sync (again); distinct = distinct (layout, faults, calls, events) signatures resp. (layout, first-life schedule, rescan) signatures",
+		Rule:       "part 1: every DA layout (5 content kinds per height) × start height {0,1,3} × every sequence of fetch outcomes (8 per listing call: the 6 immediate answers plus 'the listing call gets no answer' and 'a blob-chunk fetch gets no answer', both ending only with the retriever's own per-attempt deadline) within the budget, real RetrieveLoop under virtual time; a DA height whose only requests ended without an answer counts as neither fetched nor confirmed empty, so a listing call for the next height is the violation passes-height-only-after-success (tag fetch-no-answer); part 3: a genuine blob scanned while the sync loop's input channel is full (back-pressure) must arrive once the channel is drained; part 2: every prefix and single-byte substitution of a genuine header blob and a genuine data blob plus malformed shapes, scanned in batches of 250 next to genuine blobs; part 4: the protobuf forms of a genuine header blob and a genuine data blob with every set of <= k_delete populated fields / sub-messages / repeated-field elements removed (a sub-message removed or left present-but-empty) and every minimal message keeping <= k_keep leaves, each as it is (stale signature), re-signed by a foreign key and re-signed by the proposer's key, scanned in batches of 250 next to genuine blobs, failing batches split down to every single failing blob; a panic of the scan goroutine is the violation scan-crashes; part 5: crowded DA heights: the retrieval batch size b is measured (blob-fetch calls per listing call), then one DA height holds i filler blobs, a genuine header, a genuine data blob and j filler blobs for every i in 0..batches*b+2 and every j that ends the height on a total in {k*b-1..k*b+2} or right after the genuine pair: every genuine item sits on every index of the height incl. b-1, b, b+1, 2b, 2b+1 and must reach sync; part 6: clean restart with persisted caches in the middle of the scan: for the configurations (start height in {0,1,3}) x (blocks dealt to the DA heights in ascending / descending order) named in bounds.restart_configurations, every layout of the DA heights over {empty, the next block's genuine blobs, the next two blocks' genuine blobs, junk + the next block's genuine blobs + junk}, EVERY schedule of the first life over {scan the next DA height, the sync loop takes the next header event, the sync loop takes the next data event} (real RetrieveLoop and real SyncLoop of one Manager) and a clean stop (loops cancelled, SaveCache) at EVERY point of every such schedule at which k >= 1 emitted events have not been taken by the sync loop; then NewManager on the same store and the same cache directory (LoadCache), the whole DA layer available, the scan runs again: it must not resume beyond a height holding a genuine item that sync never got, must reach tip+1, must hand over only genuine items, and every genuine item at an examined height that the sync loop has not taken in the first life and whose block is not applied must be handed to sync (again); distinct = distinct (layout, faults, calls, events) signatures resp. (layout, first-life schedule, rescan) signatures",
 		Exhaustive: true, Caps: caps,
 		Bounds: bounds,
 	})
